@@ -103,11 +103,10 @@ def watchDecorated (m : Method) : Bool :=
   | some d => d.watch
   | none => false
 
-/-- an entry is the own entry of its origin class: created by that class's metaclass run from a
-decorated function of its body, with the dependencies resolved on that class -/
-def EntryOf (h : Hierarchy) (fuel : Nat) (e : Entry) : Prop :=
-  ∃ d m di, h[e.origin]? = some d ∧ m ∈ d.methods ∧ m.dinfo = some di ∧ di.watch = true ∧
-    m.name = e.name ∧ e.queued = di.queued ∧ e.onInit = di.onInit ∧ depsOn h e.origin fuel (some di) = .ok e.deps
+/-- an entry of the table of `c` is what the method `c` resolves for the name declares, resolved on `c` -/
+def Resolved (h : Hierarchy) (fuel : Nat) (c : Cls) (e : Entry) : Prop :=
+  ∃ k m di, resolveMethod h c e.name = some (k, m) ∧ m.dinfo = some di ∧ di.watch = true ∧
+    e.queued = di.queued ∧ e.onInit = di.onInit ∧ depsOn h c fuel (some di) = .ok e.deps ∧ e.origin = c
 
 theorem ownEntries_names (h : Hierarchy) (c : Cls) (fuel : Nat) : ∀ (ms : List Method) (es : List Entry),
     ownEntries h c fuel ms = .ok es → es.map (·.name) = (ms.filter watchDecorated).map (·.name) := by
@@ -165,107 +164,129 @@ theorem ownEntries_mem (h : Hierarchy) (c : Cls) (fuel : Nat) : ∀ (ms : List M
 
 /-! ### the inheritance loop -/
 
-theorem inheritStep_sub (h : Hierarchy) (c : Cls) (own acc : List Entry) (dep : Entry) :
-    ∀ e ∈ acc, e ∈ inheritStep h c own acc dep := by
-  intro e he
-  unfold inheritStep
-  split
-  · exact List.mem_append_left _ he
-  · exact he
-
-theorem inheritStep_mem (h : Hierarchy) (c : Cls) (own acc : List Entry) (dep : Entry) :
-    ∀ e ∈ inheritStep h c own acc dep, e ∈ acc ∨ (e = dep ∧ resolvedWatches h c dep.name = true) := by
-  intro e he
-  unfold inheritStep at he
-  split at he
-  · rename_i hc
-    simp only [Bool.and_eq_true] at hc
-    rcases List.mem_append.1 he with h1 | h1
-    · exact Or.inl h1
-    · simp at h1; exact Or.inr ⟨h1, hc.2⟩
-  · exact Or.inl he
-
-theorem inheritStep_nodup (h : Hierarchy) (c : Cls) (own acc : List Entry) (dep : Entry)
-    (hn : ((own ++ acc).map (·.name)).Nodup) : ((own ++ inheritStep h c own acc dep).map (·.name)).Nodup := by
-  unfold inheritStep
-  split
+theorem inheritStep_spec {h : Hierarchy} {c : Cls} {fuel : Nat} {own acc acc' : List Entry} {dep : Entry}
+    (hs : inheritStep h c fuel own acc dep = .ok acc') :
+    acc' = acc ∨ (∃ e, acc' = acc ++ [e] ∧ e.name = dep.name ∧ dep.name ∉ (own ++ acc).map (·.name) ∧ Resolved h fuel c e) := by
+  unfold inheritStep at hs
+  split at hs
   · rename_i hc
     simp only [Bool.and_eq_true, Bool.not_eq_true'] at hc
     have hnot : dep.name ∉ (own ++ acc).map (·.name) := by
       intro hin
       have := (hasName_iff (own ++ acc) dep.name).2 hin
       rw [hc.1] at this; cases this
-    rw [← List.append_assoc, List.map_append, List.nodup_append]
-    refine ⟨hn, by simp, ?_⟩
-    intro a ha b hb e
-    simp at hb
-    subst hb; subst e
-    exact hnot ha
-  · exact hn
+    have hw := hc.2
+    unfold resolvedWatches at hw
+    split at hs
+    · rename_i k m hr
+      rw [hr] at hw
+      simp only at hw
+      split at hs
+      · rename_i d hd
+        rw [hd] at hw
+        simp only at hw
+        split at hs
+        · simp at hs
+        · rename_i deps hdeps
+          simp only [Except.ok.injEq] at hs
+          exact Or.inr ⟨_, hs.symm, rfl, hnot, k, m, d, hr, hd, hw, rfl, rfl, hdeps, rfl⟩
+      · exact Or.inl (Except.ok.inj hs).symm
+    · exact Or.inl (Except.ok.inj hs).symm
+  · exact Or.inl (Except.ok.inj hs).symm
 
-theorem inheritStep_covers (h : Hierarchy) (c : Cls) (own acc : List Entry) (dep : Entry)
-    (hw : resolvedWatches h c dep.name = true) : dep.name ∈ (own ++ inheritStep h c own acc dep).map (·.name) := by
-  unfold inheritStep
+theorem inheritStep_covers {h : Hierarchy} {c : Cls} {fuel : Nat} {own acc acc' : List Entry} {dep : Entry}
+    (hs : inheritStep h c fuel own acc dep = .ok acc') (hw : resolvedWatches h c dep.name = true) :
+    dep.name ∈ (own ++ acc').map (·.name) := by
+  unfold inheritStep at hs
   by_cases hh : hasName (own ++ acc) dep.name = true
-  · simp only [hh, Bool.not_true, Bool.false_and, Bool.false_eq_true, if_false]
+  · simp only [hh, Bool.not_true, Bool.false_and, Bool.false_eq_true, if_false, Except.ok.injEq] at hs
+    subst hs
     exact (hasName_iff _ _).1 hh
   · simp only [Bool.not_eq_true] at hh
-    simp only [hh, hw, Bool.not_false, Bool.and_self, if_true]
-    rw [← List.append_assoc, List.map_append]
-    exact List.mem_append_right _ (by simp)
+    simp only [hh, hw, Bool.not_false, Bool.and_self, if_true] at hs
+    have hw' := hw
+    unfold resolvedWatches at hw'
+    cases hr : resolveMethod h c dep.name with
+    | none => rw [hr] at hw'; simp at hw'
+    | some km =>
+      obtain ⟨k, m⟩ := km
+      rw [hr] at hw' hs
+      simp only at hw' hs
+      cases hd : m.dinfo with
+      | none => rw [hd] at hw'; simp at hw'
+      | some d =>
+        rw [hd] at hs
+        simp only at hs
+        split at hs
+        · simp at hs
+        · simp only [Except.ok.injEq] at hs
+          subst hs
+          rw [← List.append_assoc, List.map_append]
+          exact List.mem_append_right _ (by simp)
 
-/-- the two nested loops as one fold over the concatenated ancestor tables -/
-theorem inheritAll_eq (h : Hierarchy) (c : Cls) (own : List Entry) (anc : List (List Entry)) :
-    inheritAll h c own anc = anc.flatten.foldl (inheritStep h c own) [] := by
-  unfold inheritAll
-  generalize ([] : List Entry) = acc
-  induction anc generalizing acc with
-  | nil => simp
-  | cons t rest ih => simp [List.foldl_append, ih]
-
-theorem foldl_inherit_sub (h : Hierarchy) (c : Cls) (own : List Entry) : ∀ (l acc : List Entry),
-    ∀ e ∈ acc, e ∈ l.foldl (inheritStep h c own) acc := by
+/-- what the loop over the ancestors' entries leaves -/
+theorem inheritFold_spec (h : Hierarchy) (c : Cls) (fuel : Nat) (own : List Entry) : ∀ (l acc res : List Entry),
+    inheritFold h c fuel own acc l = .ok res → ((own ++ acc).map (·.name)).Nodup →
+    ((own ++ res).map (·.name)).Nodup ∧ (∀ e ∈ acc, e ∈ res) ∧
+    (∀ e ∈ res, e ∈ acc ∨ (Resolved h fuel c e ∧ e.name ∈ l.map (·.name))) ∧
+    (∀ dep ∈ l, resolvedWatches h c dep.name = true → dep.name ∈ (own ++ res).map (·.name)) := by
   intro l
   induction l with
-  | nil => intro acc e he; exact he
-  | cons d rest ih => intro acc e he; exact ih _ e (inheritStep_sub h c own acc d e he)
-
-theorem foldl_inherit_mem (h : Hierarchy) (c : Cls) (own : List Entry) : ∀ (l acc : List Entry),
-    ∀ e ∈ l.foldl (inheritStep h c own) acc, e ∈ acc ∨ (e ∈ l ∧ resolvedWatches h c e.name = true) := by
-  intro l
-  induction l with
-  | nil => intro acc e he; exact Or.inl he
-  | cons d rest ih =>
-    intro acc e he
-    rcases ih _ e he with h1 | ⟨h1, h2⟩
-    · rcases inheritStep_mem h c own acc d e h1 with h3 | ⟨rfl, h3⟩
-      · exact Or.inl h3
-      · exact Or.inr ⟨by simp, h3⟩
-    · exact Or.inr ⟨List.mem_cons_of_mem _ h1, h2⟩
-
-theorem foldl_inherit_nodup (h : Hierarchy) (c : Cls) (own : List Entry) : ∀ (l acc : List Entry),
-    ((own ++ acc).map (·.name)).Nodup → ((own ++ l.foldl (inheritStep h c own) acc).map (·.name)).Nodup := by
-  intro l
-  induction l with
-  | nil => intro acc hn; exact hn
-  | cons d rest ih => intro acc hn; exact ih _ (inheritStep_nodup h c own acc d hn)
-
-theorem foldl_inherit_covers (h : Hierarchy) (c : Cls) (own : List Entry) : ∀ (l acc : List Entry) (dep : Entry),
-    dep ∈ l → resolvedWatches h c dep.name = true →
-    dep.name ∈ (own ++ l.foldl (inheritStep h c own) acc).map (·.name) := by
-  intro l
-  induction l with
-  | nil => intro acc dep hd; cases hd
-  | cons d rest ih =>
-    intro acc dep hd hw
-    rcases List.mem_cons.1 hd with rfl | hd
-    · have h1 := inheritStep_covers h c own acc dep hw
-      rw [List.map_append, List.mem_append] at h1 ⊢
-      rcases h1 with h1 | h1
-      · exact Or.inl h1
-      · obtain ⟨e, he, hne⟩ := List.mem_map.1 h1
-        exact Or.inr (List.mem_map.2 ⟨e, foldl_inherit_sub h c own rest _ e he, hne⟩)
-    · exact ih _ dep hd hw
+  | nil =>
+    intro acc res hr hn
+    simp only [inheritFold, Except.ok.injEq] at hr
+    subst hr
+    exact ⟨hn, fun _ h => h, fun _ h => Or.inl h, fun _ h => by cases h⟩
+  | cons dep rest ih =>
+    intro acc res hr hn
+    simp only [inheritFold] at hr
+    split at hr
+    · simp at hr
+    · rename_i acc' hstep
+      have hcov := inheritStep_covers hstep
+      rcases inheritStep_spec hstep with rfl | ⟨e, rfl, hname, hnot, hres⟩
+      · obtain ⟨h1, h2, h3, h4⟩ := ih acc' res hr hn
+        refine ⟨h1, h2, ?_, ?_⟩
+        · intro e he
+          rcases h3 e he with h | ⟨h, hm⟩
+          · exact Or.inl h
+          · exact Or.inr ⟨h, by simp only [List.map_cons, List.mem_cons]; exact Or.inr hm⟩
+        · intro d hd hw
+          rcases List.mem_cons.1 hd with rfl | hd'
+          · have := hcov hw
+            rw [List.map_append, List.mem_append] at this ⊢
+            rcases this with h | h
+            · exact Or.inl h
+            · obtain ⟨x, hx, hxn⟩ := List.mem_map.1 h
+              exact Or.inr (List.mem_map.2 ⟨x, h2 x hx, hxn⟩)
+          · exact h4 d hd' hw
+      · have hn' : ((own ++ (acc ++ [e])).map (·.name)).Nodup := by
+          rw [← List.append_assoc, List.map_append, List.nodup_append]
+          refine ⟨hn, by simp, ?_⟩
+          intro a ha b hb eq
+          simp at hb
+          subst hb; subst eq
+          rw [hname] at ha
+          exact hnot ha
+        obtain ⟨h1, h2, h3, h4⟩ := ih (acc ++ [e]) res hr hn'
+        refine ⟨h1, fun x hx => h2 x (List.mem_append_left _ hx), ?_, ?_⟩
+        · intro x hx
+          rcases h3 x hx with h | ⟨h, hm⟩
+          · rcases List.mem_append.1 h with h | h
+            · exact Or.inl h
+            · simp at h
+              subst h
+              exact Or.inr ⟨hres, by simp [hname]⟩
+          · exact Or.inr ⟨h, by simp only [List.map_cons, List.mem_cons]; exact Or.inr hm⟩
+        · intro d hd hw
+          rcases List.mem_cons.1 hd with rfl | hd'
+          · have := hcov hw
+            rw [List.map_append, List.mem_append] at this ⊢
+            rcases this with h | h
+            · exact Or.inl h
+            · obtain ⟨x, hx, hxn⟩ := List.mem_map.1 h
+              exact Or.inr (List.mem_map.2 ⟨x, h2 x hx, hxn⟩)
+          · exact h4 d hd' hw
 
 /-! ### `ancestorTables` -/
 
@@ -319,8 +340,8 @@ theorem ancestorTables_of_mem {tables : List (List Entry)} {as : List Cls} {anc 
 
 theorem tableOf_spec {h : Hierarchy} {fuel : Nat} {tables : List (List Entry)} {c : Cls} {d : ClassDecl}
     {t : List Entry} (ht : tableOf h fuel tables c d = .ok t) :
-    ∃ own anc, ownEntries h c fuel d.methods = .ok own ∧ ancestorTables tables d.mro.tail = .ok anc ∧
-      t = anc.flatten.foldl (inheritStep h c own) [] ++ own := by
+    ∃ own anc inh, ownEntries h c fuel d.methods = .ok own ∧ ancestorTables tables d.mro.tail = .ok anc ∧
+      inheritFold h c fuel own [] anc.flatten = .ok inh ∧ t = inh ++ own := by
   unfold tableOf at ht
   split at ht
   · simp at ht
@@ -328,8 +349,11 @@ theorem tableOf_spec {h : Hierarchy} {fuel : Nat} {tables : List (List Entry)} {
     split at ht
     · simp at ht
     · rename_i anc hanc
-      simp only [Except.ok.injEq] at ht
-      exact ⟨own, anc, hown, hanc, by rw [← ht, inheritAll_eq]⟩
+      split at ht
+      · simp at ht
+      · rename_i inh hinh
+        simp only [Except.ok.injEq] at ht
+        exact ⟨own, anc, inh, hown, hanc, hinh, ht.symm⟩
 
 /-! ### lookups -/
 
@@ -372,118 +396,29 @@ theorem ownMethod_some {h : Hierarchy} {k : Cls} {n : Name} {m : Method} (h1 : o
     simpa using this
   · cases h1
 
-/-- every entry of every table is the own entry of its origin class -/
-theorem tables_entryOf (h : Hierarchy) (fuel : Nat) : ∀ (n : Nat) (ts : List (List Entry)),
-    tablesUpTo h fuel n = .ok ts → ∀ t ∈ ts, ∀ e ∈ t, EntryOf h fuel e := by
-  intro n
-  induction n with
-  | zero => intro ts hts; simp [tablesUpTo] at hts; subst hts; simp
-  | succ n ih =>
-    intro ts hts
-    simp only [tablesUpTo] at hts
-    split at hts
-    · simp at hts
-    · rename_i ts0 h0
-      split at hts
-      · simp at hts
-      · rename_i d hd
-        split at hts
-        · simp at hts
-        · rename_i t ht
-          simp only [Except.ok.injEq] at hts
-          subst hts
-          intro t' ht' e he
-          rcases List.mem_append.1 ht' with h1 | h1
-          · exact ih ts0 h0 t' h1 e he
-          · simp only [List.mem_singleton] at h1
-            subst h1
-            obtain ⟨own, anc, hown, hanc, rfl⟩ := tableOf_spec ht
-            rcases List.mem_append.1 he with h2 | h2
-            · rcases foldl_inherit_mem h n own _ _ e h2 with h3 | ⟨h3, _⟩
-              · cases h3
-              · obtain ⟨ta, hta, hea⟩ := List.mem_flatten.1 h3
-                obtain ⟨a, _, hat⟩ := ancestorTables_mem hanc ta hta
-                exact ih ts0 h0 ta (List.mem_of_getElem? hat) e hea
-            · obtain ⟨ho, m, di, hm, r1, r2, r3, r4, r5, r6⟩ := ownEntries_mem h n fuel d.methods own hown e h2
-              exact ⟨d, m, di, by rw [ho]; exact hd, hm, r1, r2, r3, r4, r5, by rw [ho]; exact r6⟩
+/-- shape of the table of a well-formed class: own entries preceded by what the loop over the
+ancestors' tables produced -/
+theorem table_shape {h : Hierarchy} {fuel : Nat} {c : Cls} {t : List Entry}
+    (hwf : wfClassB h c = true) (ht : dependsTable h fuel c = .ok t) :
+    ∃ ts d rest own anc inh, tablesUpTo h fuel (c + 1) = .ok ts ∧ h[c]? = some d ∧ d.mro = c :: rest ∧
+      (∀ a ∈ rest, a < c) ∧ (d.methods.map (·.name)).Nodup ∧ ownEntries h c fuel d.methods = .ok own ∧
+      ancestorTables (ts.take c) rest = .ok anc ∧ inheritFold h c fuel own [] anc.flatten = .ok inh ∧ t = inh ++ own := by
+  obtain ⟨ts, d, hts, hd, htab⟩ := dependsTable_spec ht
+  obtain ⟨own, anc, inh, hown, hanc, hinh, rfl⟩ := tableOf_spec htab
+  obtain ⟨d', rest, hd', hmro, hlt, hnd⟩ := wfClassB_spec hwf
+  rw [hd] at hd'
+  simp only [Option.some.injEq] at hd'
+  subst hd'
+  rw [hmro] at hanc
+  exact ⟨ts, d, rest, own, anc, inh, hts, hd, hmro, hlt, hnd, hown, hanc, hinh, rfl⟩
 
-/-! ### dependencies resolved on two classes -/
+/-- a function of a class body is what that class resolves for its name -/
+theorem resolve_own {h : Hierarchy} {c : Cls} {d : ClassDecl} {rest : List Cls} (hd : h[c]? = some d)
+    (hmro : d.mro = c :: rest) (hnd : (d.methods.map (·.name)).Nodup) {m : Method} (hm : m ∈ d.methods) :
+    resolveMethod h c m.name = some (c, m) := by
+  simp [resolveMethod, mroOf, hd, hmro, resolveIn, ownMethod, find_name_of_nodup hnd hm]
 
 def keyOf (d : PDep) : Key := ⟨d.name, d.what⟩
-
-def keysOfRes : Except Err (List PDep) → Except Err (List Key)
-  | .ok ds => .ok (ds.map keyOf)
-  | .error e => .error e
-
-/-- Resolving `di` on class `a` and on class `c` visits the same things: every dependency name
-reached is a Parameter of both or of neither, every method reached through method-name dependencies
-resolves on `c` to the SAME declaration as on `a` (it is not overridden between them), and where an
-undecorated function is reached ("depends on every parameter") both classes have the same
-parameters.  This is the class of hierarchies for which an entry computed in `a` is still right for
-`c`. -/
-def SameDeps (h : Hierarchy) (a c : Cls) : Nat → Option DInfo → Prop
-  | 0, _ => True
-  | f + 1, di => specsOf h a di = specsOf h c di ∧ ∀ s ∈ specsOf h a di,
-      (s.attr ∈ allParams h a ↔ s.attr ∈ allParams h c) ∧
-      (s.attr ∉ allParams h a → ∀ k m, resolveMethod h a s.attr = some (k, m) →
-          (∃ k', resolveMethod h c s.attr = some (k', m)) ∧ SameDeps h a c f m.dinfo) ∧
-      (s.attr ∉ allParams h a → resolveMethod h a s.attr = none → resolveMethod h c s.attr = none)
-
-theorem collect_congr (g1 g2 : Spec → Except Err (List PDep)) : ∀ (l : List Spec),
-    (∀ s ∈ l, keysOfRes (g1 s) = keysOfRes (g2 s)) → keysOfRes (collect g1 l) = keysOfRes (collect g2 l) := by
-  intro l
-  induction l with
-  | nil => intro _; rfl
-  | cons s rest ih =>
-    intro hl
-    have h1 := hl s (by simp)
-    have h2 := ih (fun s' hs' => hl s' (List.mem_cons_of_mem _ hs'))
-    simp only [collect]
-    cases e1 : g1 s <;> cases e2 : g2 s <;> rw [e1, e2] at h1 <;> simp only [keysOfRes] at h1
-    · simp only [keysOfRes]; exact h1
-    · cases h1
-    · cases h1
-    · cases e3 : collect g1 rest <;> cases e4 : collect g2 rest <;> rw [e3, e4] at h2 <;>
-        simp only [keysOfRes] at h2 ⊢
-      · exact h2
-      · cases h2
-      · cases h2
-      · simp only [Except.ok.injEq] at h1 h2
-        simp [List.map_append, h1, h2]
-
-theorem depsOn_sameDeps (h : Hierarchy) (a c : Cls) : ∀ (f : Nat) (di : Option DInfo),
-    SameDeps h a c f di → keysOfRes (depsOn h a f di) = keysOfRes (depsOn h c f di) := by
-  intro f
-  induction f with
-  | zero => intro di _; rfl
-  | succ f ih =>
-    intro di hs
-    obtain ⟨hspecs, hall⟩ := hs
-    simp only [depsOn]
-    rw [← hspecs]
-    apply collect_congr
-    intro s hs
-    obtain ⟨hp, hm, hn⟩ := hall s hs
-    by_cases hpa : s.attr ∈ allParams h a
-    · have hpc := hp.1 hpa
-      simp [hpa, hpc, keysOfRes, keyOf]
-    · have hpc : s.attr ∉ allParams h c := fun hh => hpa (hp.2 hh)
-      simp only [hpa, hpc, if_false]
-      cases hr : resolveMethod h a s.attr with
-      | none => rw [hn hpa hr]
-      | some km =>
-        obtain ⟨k, m⟩ := km
-        obtain ⟨⟨k', hk'⟩, hrec⟩ := hm hpa k m hr
-        rw [hk']
-        exact ih m.dinfo hrec
-
-theorem sameDeps_refl (h : Hierarchy) (c : Cls) : ∀ (f : Nat) (di : Option DInfo), SameDeps h c c f di := by
-  intro f
-  induction f with
-  | zero => intro _; trivial
-  | succ f ih =>
-    intro di
-    refine ⟨rfl, fun s _ => ⟨Iff.rfl, fun _ k m hr => ⟨⟨k, hr⟩, ih m.dinfo⟩, fun _ hr => hr⟩⟩
 
 theorem collect_mem (g : Spec → Except Err (List PDep)) : ∀ (l : List Spec) (ds : List PDep),
     collect g l = .ok ds → ∀ d ∈ ds, ∃ s ∈ l, ∃ ds', g s = .ok ds' ∧ d ∈ ds' := by
